@@ -78,17 +78,21 @@ theorem compute_pwm (c : Cfg) (hc : CtlRanged c) (s s' : St) (t : Q) (h : PwmInv
   split at hcm
   · simp at hcm
   · rename_i pwm hp
-    simp only [Except.ok.injEq] at hcm; subst hcm
-    have hr : -1 ≤ pwm ∧ pwm ≤ 1 := by
-      cases hcc : c.control with
-      | none => rw [hcc] at hp; simp only [Except.ok.injEq] at hp; rw [← hp]; exact h.1
-      | some f => rw [hcc] at hp; exact hc f hcc _ _ hp
-    refine ⟨hr, ?_⟩
-    intro r hrm
-    simp only [List.mem_append, List.mem_singleton] at hrm
-    rcases hrm with h1 | h1
-    · exact h.2 r h1
-    · rw [h1]; exact hr
+    split at hcm
+    · simp at hcm
+    · split at hcm
+      · simp at hcm
+      · simp only [Except.ok.injEq] at hcm; subst hcm
+        have hr : -1 ≤ pwm ∧ pwm ≤ 1 := by
+          cases hcc : c.control with
+          | none => rw [hcc] at hp; simp only [Except.ok.injEq] at hp; rw [← hp]; exact h.1
+          | some f => rw [hcc] at hp; exact hc f hcc _ _ hp
+        refine ⟨hr, ?_⟩
+        intro r hrm
+        simp only [List.mem_append, List.mem_singleton] at hrm
+        rcases hrm with h1 | h1
+        · exact h.2 r h1
+        · rw [h1]; exact hr
 
 theorem loop_pwm (c : Cfg) (hc : CtlRanged c) (dt : Q) (stop) (ts : List Q) (s s' : St) (h : PwmInv s)
     (hl : loop c dt stop ts s = .ok s') : PwmInv s' := by
@@ -171,8 +175,12 @@ theorem compute_applies_control (c : Cfg) (f : CtlIn → Except Err Q) (hc : c.c
   split at h
   · simp at h
   · rename_i pwm hp
-    simp only [Except.ok.injEq] at h; subst h
-    exact ⟨_, _, rfl, rfl, rfl, rfl, rfl, hp, rfl⟩
+    split at h
+    · simp at h
+    · split at h
+      · simp at h
+      · simp only [Except.ok.injEq] at h; subst h
+        exact ⟨_, _, rfl, rfl, rfl, rfl, rfl, hp, rfl⟩
 
 /-! ### non-vacuity -/
 example : arbitrate [none, some (some 5), none] = .ok 1 := by decide +kernel
